@@ -233,6 +233,22 @@ def main():
                   "script": [INSTOP, INSTOP] + [{"op": "call", "inst": i_, "export": e_, "args": a_} for i_, e_, a_ in
                                                 ((1, "drop1", []), (2, "init1", [arg("i32", 200), arg("i32", 1), arg("i32", 5)]), (1, "init1", [arg("i32", 100), arg("i32", 0), arg("i32", 0)]),
                                                  (2, "drop0", []), (1, "init0", [arg("i32", 300), arg("i32", 2), arg("i32", 9)]), (2, "init1", [arg("i32", 400), arg("i32", 0), arg("i32", 9)]))]})
+    # a memory that is big enough for an implementation to reserve room in advance, grown a page at a time: every new page
+    # is read before anything is written to it (first, last and a middle word), then written, then the next grow
+    big = build_module(16, minpages=8)
+    for j, steps in enumerate(([1] * 8, [1, 2, 1, 3, 1], [2, 1, 1, 1, 1, 1, 1])):
+        sc, pages = [dict(INSTOP)], 8
+        for stp in steps:
+            sc.append({"op": "call", "inst": 1, "export": "grow", "args": [arg("i32", stp)]})
+            for pg in range(pages, pages + stp):
+                for off in (0, PAGE // 2, PAGE - 8):
+                    sc.append({"op": "call", "inst": 1, "export": "ld_i64_load_0", "args": [arg("i32", pg * PAGE + off)]})
+                sc.append({"op": "call", "inst": 1, "export": "st_i32_store_0", "args": [arg("i32", pg * PAGE + 16), arg("i32", 0x01020304 + pg)]})
+            pages += stp
+            sc.append({"op": "call", "inst": 1, "export": "size", "args": []})
+        items.append({"id": "biggrow%d" % j, "module": big, "script": sc})
+    # a C library that is as unhelpful as the standard allows (fresh bytes not zero, realloc moves, overlapping memcpy reported)
+    builds.append(machine.HOSTILE_LIBC)
     st, exp = machine.replay(v, items, builds, sigfn=sig)
     wd2 = common.scratch("c05af-")
     try:
